@@ -69,7 +69,25 @@ define flow morning
 """
 
 
+SHORT_PROMPT_YAML = """rails:
+  dialog:
+    single_call:
+      enabled: False
+prompts:
+  - task: general
+    max_length: 600
+    content: |-
+      {{ general_instructions }}
+      {{ history | user_assistant_sequence }}
+      Assistant:
+"""
+
+
 def build(dialog):
+    if dialog == "shortprompt":
+        # the prompt of the generating task has a small length limit: the history of a long conversation does not fit
+        # and is cut from its beginning (what is cut for one conversation must not be cut for another)
+        return World("", SHORT_PROMPT_YAML)
     if dialog == "varmsg":
         # a predefined bot message that uses a context variable which only some conversations supply
         return World(rw.V1_DIALOG + VARMSG_COLANG, "rails:\n  dialog:\n    single_call:\n      enabled: False\n")
@@ -172,6 +190,12 @@ def conv_sets(dialog):
     U = Conv("U", [("hist", [sf("bot say one")]), ("hist", [{"role": "user", "content": "x"}, {"role": "assistant", "content": "y"}, sf("bot say one")])])
     V = Conv("V", [("hist", [sf("bot say two\nbot say three")])])
     sets.append(("flow-defined-in-the-history-under-one-id", [U, V]))
+    # 11. one conversation outgrows the length limit of the prompt (its history is cut from the beginning), the others are short
+    long_ = "w " * 60
+    X = Conv("X", [("nat", "x1 " + long_), ("nat", "x2 " + long_), ("nat", "x3 short")])
+    Y = Conv("Y", [("nat", "y1 hello"), ("nat", "y2 again")])
+    Z = Conv("Z", [("nat", "z1 " + long_)])
+    sets.append(("history-longer-than-the-prompt-limit", [X, Y, Z]))
     return sets
 
 
@@ -405,7 +429,7 @@ def run(rep, tier):
     import vf.engines.world  # noqa
 
     n_sets = len(conv_sets(False))
-    ts = [(d, i) for d in (False, True, "rails", "mutating") for i in range(n_sets)] + [("varmsg", 7), ("varmsg", 3)]
+    ts = [(d, i) for d in (False, True, "rails", "mutating") for i in range(n_sets)] + [("varmsg", 7), ("varmsg", 3), ("shortprompt", n_sets - 1)]
     agg = {}
     for r in par.pmap(explore, ts):
         for k, v in r.items():
